@@ -454,3 +454,37 @@ def ctor_stores_exact(ctx, rule, only=None):
                    '' if bad is None else 'self.%s = %s: a falsy %s passed by the caller (empty tuple, 0, \'\') is silently replaced'
                    % (st.targets[0].attr, _A.short(v, 50), bad), nontrivial=False)
     return n
+
+
+def self_capability_stubs(ctx, rule, only=None):
+    """a stage calls a capability on itself (`self.keys()`, `len(self)`, ...) that resolves, for this class, to a member
+    that only raises: the path that makes the call can never succeed (e.g. items() of the stage always ends in
+    NotImplementedError although the input supports it). Subclass overrides are not considered: the rule is about the
+    classes of the package."""
+    import ast as _ast
+    from .. import astutil as _A
+    rep = ctx.report
+    n = 0
+    for cls in family(ctx):
+        if only is not None and cls.name not in only:
+            continue
+        for mname, mem in cls.members.items():
+            if not mem.is_function or only_raises(mem.node):
+                continue
+            for c in _A.walk_local(mem.node):
+                name = None
+                if isinstance(c, _ast.Call) and _A.is_self_attr(c.func):
+                    name = c.func.attr
+                elif isinstance(c, _ast.Call) and _A.dotted(c.func) == 'len' and c.args and _A.is_name(c.args[0], 'self'):
+                    name = '__len__'
+                if name is None:
+                    continue
+                n += 1
+                m = cls.resolve(name)
+                if m is not None and m.is_function and only_raises(m.node):
+                    rep.ob(rule, key(cls, mname, 'calls-own-%s-which-only-raises' % name), False, c,
+                           '%s.%s calls self.%s, which %s does not implement (it resolves to the raising stub of %s): this '
+                           'path always ends in that error although the stage could answer from its input' % (
+                               cls.name, mname, name, cls.name, m.owner.name))
+    rep.summary(rule, 'package::no-call-of-an-unimplemented-own-capability', '%d calls of own capabilities resolved' % n)
+    return n
